@@ -294,14 +294,14 @@ func show(v goatlang.Value) string {
 }
 
 type Native struct {
-	Form     int   `json:"form"` // 0..5 as in NewFunc's type list
-	Args     []Arg `json:"args"`
-	Vargs    []Arg `json:"vargs,omitempty"` // form 5 only
-	Spread   bool  `json:"spread,omitempty"` // pass the variadic tail as s...
-	Rets     []Arg `json:"rets"`
-	Context  string `json:"context"` // stmt assign expr argnative argscript loop
-	ViaVars  bool  `json:"via_vars"` // arguments passed through typed variables instead of literals
-	InFunc   bool  `json:"in_func"`
+	Form    int    `json:"form"` // 0..5 as in NewFunc's type list
+	Args    []Arg  `json:"args"`
+	Vargs   []Arg  `json:"vargs,omitempty"`  // form 5 only
+	Spread  bool   `json:"spread,omitempty"` // pass the variadic tail as s...
+	Rets    []Arg  `json:"rets"`
+	Context string `json:"context"`  // stmt assign expr argnative argscript loop
+	ViaVars bool   `json:"via_vars"` // arguments passed through typed variables instead of literals
+	InFunc  bool   `json:"in_func"`
 }
 
 func genNative(rt *rapid.T) *Native {
@@ -832,8 +832,8 @@ func TestErrors(t *testing.T) {
 // ---- natives that re-enter the VM and go on using their arguments -----------------------------
 
 type ReCase struct {
-	Extra  int  `json:"extra"`  // extra leading arguments of the native (arity = extra + 3)
-	Nested int  `json:"nested"` // how many nested calls it makes (1..3)
+	Extra  int  `json:"extra"`    // extra leading arguments of the native (arity = extra + 3)
+	Nested int  `json:"nested"`   // how many nested calls it makes (1..3)
 	Via    bool `json:"via_call"` // nested call through vm.Call(name) instead of vm.Func(value)
 	InLoop bool `json:"in_loop"`
 	// Outer: afterwards the host calls a script function this many times on the same VM (Call); that function sorts a
@@ -1010,7 +1010,8 @@ func TestReplay(t *testing.T) {
 			}
 			return checkHostStructs(c.Instances, c.Shared)
 		},
-		"vargs":  replayVCase,
+		"vargs":      replayVCase,
+		"hostparams": replayHostParams,
 		"reentrant": func(raw json.RawMessage) *ev.Failure {
 			var c ReCase
 			json.Unmarshal(raw, &c)
